@@ -275,6 +275,7 @@ type gen struct {
 	vm   *otto.Otto
 	idf  otto.Value
 	sunk otto.Value
+	seq  seqState
 }
 
 func (g *gen) intValue(kind string) gscalar {
@@ -848,6 +849,7 @@ func runC15(env *Env) {
 	Must(err)
 	_, err = g.vm.Run(describePrelude)
 	Must(err)
+	g.installSeqCallbacks()
 	Must(g.vm.Set("sink", func(call otto.FunctionCall) otto.Value {
 		g.sunk = call.Argument(0)
 		return otto.UndefinedValue()
@@ -869,6 +871,8 @@ func runC15(env *Env) {
 	g.treeCase(arr(lit(1), &jnode{t: "hole"}, lit(2)), 0)
 
 	g.jsValueCase(`({valueOf:function(){throw new TypeError("t")}})`)
+	g.callSeqCase(1)
+	g.callSeqCase(2)
 
 	for env.Count() < env.N {
 		switch k := r.Intn(20); {
@@ -889,6 +893,9 @@ func runC15(env *Env) {
 			continue
 		case k < 13:
 			g.containerCase()
+			continue
+		case k < 15:
+			g.callSeqCase(0)
 			continue
 		}
 		s, simple := g.scalar()
@@ -2122,4 +2129,211 @@ func (g *gen) containerCase() {
 	}
 	g.env.Add(fmt.Sprintf("CContainer %s %s %s %s", c.coq, view, same, js),
 		fmt.Sprintf("container %#v: script view (describe) %s; Export DeepEqual %s; MarshalJSON equals encoding/json %s", c.val, o.Val.String(), same, js), "container", true)
+}
+
+// ====================== sequences of calls: argument lists must not alias ======================
+
+func goTypeof(v otto.Value) string {
+	switch {
+	case v.IsUndefined():
+		return "undefined"
+	case v.IsBoolean():
+		return "boolean"
+	case v.IsNumber():
+		return "number"
+	case v.IsString():
+		return "string"
+	case v.IsFunction():
+		return "function"
+	}
+	return "object"
+}
+
+// descriptor (same format as probe()) of an argument list held on the Go side
+func goDesc(tag string, args []otto.Value) string {
+	parts := []string{tag, fmt.Sprint(len(args))}
+	for _, a := range args {
+		parts = append(parts, goTypeof(a), a.String())
+	}
+	return strings.Join(parts, "\x01")
+}
+
+type seqState struct {
+	stash [2][]otto.Value // argument lists kept by stashA / stashL (not copied)
+	inner []interface{}   // what the re-entrant callback passes to its nested call
+}
+
+func (g *gen) installSeqCallbacks() {
+	vm := g.vm
+	for i, name := range []string{"stashA", "stashL"} {
+		i := i
+		Must(vm.Set(name, func(call otto.FunctionCall) otto.Value {
+			g.seq.stash[i] = call.ArgumentList
+			return otto.UndefinedValue()
+		}))
+	}
+	Must(vm.Set("reenter", func(call otto.FunctionCall) otto.Value {
+		// first re-enter the interpreter through the API, only then look at the own arguments
+		var inner otto.Value
+		var err error
+		if len(g.seq.inner)%2 == 0 {
+			inner, err = call.Otto.Call("probe", nil, g.seq.inner...)
+		} else {
+			p, _ := call.Otto.Get("probe")
+			inner, err = p.Call(otto.UndefinedValue(), g.seq.inner...)
+		}
+		in := "!error"
+		if err == nil {
+			in = inner.String()
+		}
+		r, _ := otto.ToValue(goDesc("R", call.ArgumentList) + "\x02" + in)
+		return r
+	}))
+}
+
+func (g *gen) seqArgs(min int) ([]gscalar, []interface{}, string, string, string) {
+	n := min + g.env.Rng.Intn(3)
+	args := make([]gscalar, n)
+	goArgs := make([]interface{}, n)
+	lits, coqs, txts := make([]string, n), make([]string, n), make([]string, n)
+	for i := range args {
+		args[i] = g.callArg()
+		goArgs[i] = args[i].plain()
+		lits[i], coqs[i], txts[i] = args[i].literal(), args[i].coq(), args[i].text()
+	}
+	return args, goArgs, strings.Join(lits, ", "), Clist(coqs), strings.Join(txts, ", ")
+}
+
+func (g *gen) callSeqCase(pinned int) {
+	r := g.env.Rng
+	vm := g.vm
+	g.seq = seqState{}
+	RunJS(vm, "boundA0 = boundA1 = boundL0 = boundL1 = undefined")
+	var steps, obsA, obsL, txt []string
+	bound := [2]bool{}
+	stashed := false
+	probeV, _ := vm.Get("probe")
+	holderV, _ := vm.Get("holder")
+	addOb := func(dst *[]string, v otto.Value, err error, p bool) {
+		if p || err != nil {
+			*dst = append(*dst, callOb(v, err, p))
+			return
+		}
+		for _, part := range strings.Split(v.String(), "\x02") {
+			*dst = append(*dst, "(OVal "+descTerm(part)+")")
+		}
+	}
+	nsteps := r.Intn(6) + 3
+	plan := []int{}
+	switch pinned {
+	case 1:
+		plan = []int{0, 2, 4}
+	case 2:
+		plan = []int{3, 1, 2, 5}
+	}
+	for i := 0; i < nsteps || i < len(plan); i++ {
+		k := r.Intn(6)
+		if i < len(plan) {
+			k = plan[i]
+		} else if len(plan) > 0 {
+			break
+		}
+		switch {
+		case k == 0: // bind through Object.Call
+			slot := r.Intn(2)
+			_, goArgs, lits, coqs, t := g.seqArgs(1)
+			var v otto.Value
+			var err error
+			p := guard(func() { v, err = probeV.Object().Call("bind", append([]interface{}{"T"}, goArgs...)...) })
+			if p || err != nil {
+				txt = append(txt, fmt.Sprintf("API bind failed: %v", err))
+				obsA = append(obsA, "OPanic")
+			} else {
+				Must(vm.Set(fmt.Sprintf("boundA%d", slot), v))
+			}
+			RunJS(vm, fmt.Sprintf("boundL%d = probe.bind(\"T\", %s)", slot, lits))
+			bound[slot] = true
+			steps = append(steps, fmt.Sprintf("SBind %d %s", slot, coqs))
+			txt = append(txt, fmt.Sprintf("bound%d = probe.bind(\"T\", %s) [API: Object.Call(\"bind\", \"T\", %s)]", slot, lits, t))
+		case k == 1: // a Go callback keeps its argument list
+			_, goArgs, lits, coqs, t := g.seqArgs(2)
+			var err error
+			p := guard(func() { _, err = vm.Call("stashA", nil, goArgs...) })
+			if p || err != nil {
+				obsA = append(obsA, "OPanic")
+			}
+			RunJS(vm, "stashL("+lits+")")
+			stashed = true
+			steps = append(steps, "SStash "+coqs)
+			txt = append(txt, fmt.Sprintf("stash(%s) [API: Otto.Call(\"stash\", nil, %s)]", lits, t))
+		case k == 2: // plain multi-argument call
+			_, goArgs, lits, coqs, t := g.seqArgs(2)
+			var v otto.Value
+			var err error
+			var lang string
+			var p bool
+			switch r.Intn(3) {
+			case 0:
+				p = guard(func() { v, err = vm.Call("probe", nil, goArgs...) })
+				lang = "probe(" + lits + ")"
+			case 1:
+				p = guard(func() { v, err = probeV.Call(otto.UndefinedValue(), goArgs...) })
+				lang = "probe(" + lits + ")"
+			default:
+				p = guard(func() { v, err = holderV.Object().Call("probe", goArgs...) })
+				lang = "holder.probe(" + lits + ")"
+			}
+			addOb(&obsA, v, err, p)
+			o := RunJS(vm, lang)
+			addOb(&obsL, o.Val, o.Err, o.Panic != nil)
+			steps = append(steps, "SProbe "+coqs)
+			txt = append(txt, fmt.Sprintf("%s [API args %s] -> API %q / in-language %q", lang, t, v.String(), o.Val.String()))
+		case k == 3: // re-entrant Go callback
+			_, goOuter, litsO, coqsO, tO := g.seqArgs(2)
+			_, goInner, _, coqsI, tI := g.seqArgs(2)
+			g.seq.inner = goInner
+			var v otto.Value
+			var err error
+			var p bool
+			if r.Intn(2) == 0 {
+				p = guard(func() { v, err = vm.Call("reenter", nil, goOuter...) })
+			} else {
+				re, _ := vm.Get("reenter")
+				p = guard(func() { v, err = re.Call(otto.UndefinedValue(), goOuter...) })
+			}
+			addOb(&obsA, v, err, p)
+			o := RunJS(vm, "reenter("+litsO+")")
+			addOb(&obsL, o.Val, o.Err, o.Panic != nil)
+			steps = append(steps, fmt.Sprintf("SNest %s %s", coqsO, coqsI))
+			txt = append(txt, fmt.Sprintf("reenter(%s) [API args %s] whose Go body first calls probe(%s) through the API -> API %q / in-language %q", litsO, tO, tI, v.String(), o.Val.String()))
+		case k == 4 && (bound[0] || bound[1]): // call a bound function
+			slot := 0
+			if !bound[0] || (bound[1] && r.Intn(2) == 0) {
+				slot = 1
+			}
+			_, goArgs, lits, coqs, t := g.seqArgs(0)
+			var v otto.Value
+			var err error
+			var p bool
+			if r.Intn(2) == 0 {
+				b, _ := vm.Get(fmt.Sprintf("boundA%d", slot))
+				p = guard(func() { v, err = b.Call(otto.UndefinedValue(), goArgs...) })
+			} else {
+				o := RunJS(vm, fmt.Sprintf("boundA%d(%s)", slot, lits))
+				v, err, p = o.Val, o.Err, o.Panic != nil
+			}
+			addOb(&obsA, v, err, p)
+			o := RunJS(vm, fmt.Sprintf("boundL%d(%s)", slot, lits))
+			addOb(&obsL, o.Val, o.Err, o.Panic != nil)
+			steps = append(steps, fmt.Sprintf("SCallBound %d %s", slot, coqs))
+			txt = append(txt, fmt.Sprintf("bound%d(%s) [API args %s] -> API %q / in-language %q", slot, lits, t, v.String(), o.Val.String()))
+		case k == 5 && stashed: // read the kept argument lists
+			a, l := goDesc("S", g.seq.stash[0]), goDesc("S", g.seq.stash[1])
+			obsA = append(obsA, "(OVal "+descTerm(a)+")")
+			obsL = append(obsL, "(OVal "+descTerm(l)+")")
+			steps = append(steps, "SRecall")
+			txt = append(txt, fmt.Sprintf("kept argument list: API %q / in-language %q", a, l))
+		}
+	}
+	g.env.Add(fmt.Sprintf("CCallSeq %s %s %s", Clist(steps), Clist(obsA), Clist(obsL)), "call sequence: "+strings.Join(txt, "; "), "call-sequence", true)
 }
